@@ -8,6 +8,9 @@ from .layref import (LList, LTuple, LMap, Stream, Native, Closure, Bound, LClass
 NUM, STR, CALL, ANY, BOOL = "number", "string", "callable", "any", "bool"
 
 
+STACK_NATIVES = {"each", "reduce", "all", "any", "into"}
+
+
 def is_callable(v):
     return isinstance(v, (Closure, Native)) or (isinstance(v, Bound))
 
@@ -125,6 +128,13 @@ def iter_method(I, it, name):
     def m(fn, lo, hi, kinds):
         def run(I2, recv, args):
             sig(I2, args, lo, hi, kinds)
+            if name in STACK_NATIVES:
+                # natives that run callbacks from a call frame of their own show up in tracebacks as `native:0 in <name>()`
+                I2.frames.append([name, 0, "native"])
+                try:
+                    return fn(args)
+                finally:
+                    I2.frames.pop()
             return fn(args)
         return Native(name, run, None)
     if name == "next":
@@ -463,6 +473,12 @@ def install_globals(I):
             def mk(fn=fn, lo=lo, hi=hi, kinds=kinds, k=k):
                 def run(I2, recv, args):
                     sig(I2, args, lo, hi, kinds)
+                    if k in ("parse",):  # declared with a frame of its own: listed in the traceback of the error it raises
+                        I2.frames.append([k, 0, "native"])
+                        try:
+                            return fn(args)
+                        finally:
+                            I2.frames.pop()
                     return fn(args)
                 return Native(k, run, None)
             c.statics[k] = mk()
